@@ -473,23 +473,31 @@ func TestVerifC38(t *testing.T) {
 		// only catch up by snapshot install, then leadership moves to it
 		{"write", "barrier", "join-nonvoter", "snapshot-compact", "barrier", "snapshot-compact", "join-voter", "stepdown", "barrier", "snapshot-compact"},
 	}
-	for _, sc := range directed {
-		ops, impl, ok := c38RunHistory(t, rep, r, len(sc), 3, sc)
+	// every history runs under a watchdog: a raft call that never returns abandons that
+	// history (noted with a goroutine dump) instead of blocking the check
+	guarded := func(nOps int, script []string) {
+		var ops, impl []string
+		ok := false
+		fin, dump := clu8Guard(10*time.Minute, func() { ops, impl, ok = c38RunHistory(t, rep, r, nOps, 3, script) })
+		if !fin {
+			rep.Note("C38: a history did not finish within 10 min and was abandoned; goroutines: %s", dump)
+			rep.Count("histories-abandoned-by-watchdog")
+			return
+		}
 		if ok {
 			completed++
 		}
 		segOps, segImpl = append(segOps, ops), append(segImpl, impl)
 	}
+	for _, sc := range directed {
+		guarded(len(sc), sc)
+	}
 	hists := vfScale(2, 30)
 	nOps := vfScale(10, 24)
 	for i := 0; i < hists; i++ {
 		t0 := time.Now()
-		ops, impl, ok := c38RunHistory(t, rep, r, nOps, 3, nil)
-		t.Logf("C38 history %d/%d: completed=%v in %s", i+1, hists, ok, time.Since(t0).Round(time.Second))
-		if ok {
-			completed++
-		}
-		segOps, segImpl = append(segOps, ops), append(segImpl, impl)
+		guarded(nOps, nil)
+		t.Logf("C38 history %d/%d done in %s", i+1, hists, time.Since(t0).Round(time.Second))
 	}
 	rep.CountN("histories-completed", completed)
 	if completed == 0 {
